@@ -1342,12 +1342,219 @@ theorem dueby_alrm {s : HSt} {L : Int} : DueBy L (alrmSt s) := by
   rw [← hxe]; exact Int.le_refl _
 
 
+/-! ### arrivals (todo_do) -/
+
+theorem find_append_old (s : HSt) (m : Msg) (i : Nat) (m2 : Msg) (h : s.find i = some m2) :
+    ({ s with msgs := s.msgs ++ [m] } : HSt).find i = some m2 := by
+  unfold HSt.find at h ⊢
+  simp only [List.find?_append, h, Option.some_or]
+
+theorem find_append_new (s : HSt) (m : Msg) (h : s.find m.id = none) :
+    ({ s with msgs := s.msgs ++ [m] } : HSt).find m.id = some m := by
+  unfold HSt.find at h ⊢
+  simp only [List.find?_append, h, Option.none_or, List.find?_cons, beq_self_eq_true]
+
+theorem find_append_cases (s : HSt) (m : Msg) (i : Nat) (m2 : Msg)
+    (h : ({ s with msgs := s.msgs ++ [m] } : HSt).find i = some m2) : s.find i = some m2 ∨ (s.find i = none ∧ m2 = m ∧ i = m.id) := by
+  unfold HSt.find at h ⊢
+  rw [List.find?_append] at h
+  cases hs : s.msgs.find? (·.id == i) with
+  | some x => rw [hs] at h; left; simpa using h
+  | none =>
+    rw [hs] at h
+    right
+    simp only [Option.none_or, List.find?_cons] at h
+    by_cases hid : (m.id == i) = true
+    · simp only [hid] at h
+      exact ⟨rfl, (Option.some.inj h).symm, by simpa using Eq.symm (by simpa using hid)⟩
+    · have : (m.id == i) = false := by simpa using hid
+      simp [this] at h
+
+/-- the new message record of `arriveSt` -/
+def arriveMsg (s : HSt) (id n0 n1 : Nat) : Msg :=
+  { id := id, birth := s.clock, mt0 := s.clock, mt1 := s.clock,
+    recs0 := if n0 = 0 then none else some (List.replicate n0 true),
+    recs1 := if n1 = 0 then none else some (List.replicate n1 true) }
+
+/-- the number of recipients on channel `c` -/
+def nOf : Chan → Nat → Nat → Nat
+  | .loc, a, _ => a
+  | .rem, _, b => b
+
+theorem arriveMsg_recs (s : HSt) (id n0 n1 : Nat) (c : Chan) :
+    ((arriveMsg s id n0 n1).recs c).isSome = true ↔ nOf c n0 n1 ≠ 0 := by
+  cases c
+  · show ((if n0 = 0 then none else some (List.replicate n0 true)) : Option (List Bool)).isSome = true ↔ n0 ≠ 0
+    by_cases h : n0 = 0 <;> simp [h]
+  · show ((if n1 = 0 then none else some (List.replicate n1 true)) : Option (List Bool)).isSome = true ↔ n1 ≠ 0
+    by_cases h : n1 = 0 <;> simp [h]
+
+/-- the state after an arrival, spelled out per heap -/
+theorem arriveSt_spec (s : HSt) (id n0 n1 : Nat) (h : s.find id = none) :
+    (arriveSt s id n0 n1).msgs = s.msgs ++ [arriveMsg s id n0 n1] ∧
+    (arriveSt s id n0 n1).clock = s.clock ∧ (arriveSt s id n0 n1).lifetime = s.lifetime ∧
+    (arriveSt s id n0 n1).q0 = (if n0 = 0 then s.q0 else s.q0.insert { dt := s.clock, id := id }) ∧
+    (arriveSt s id n0 n1).q1 = (if n1 = 0 then s.q1 else s.q1.insert { dt := s.clock, id := id }) ∧
+    (arriveSt s id n0 n1).done = (if n0 = 0 ∧ n1 = 0 then s.done.insert { dt := s.clock, id := id } else s.done) := by
+  unfold arriveSt
+  simp only [h]
+  by_cases h0 : n0 = 0 <;> by_cases h1 : n1 = 0 <;> simp [h0, h1, arriveMsg, HSt.setQ, HSt.q]
+
+theorem arriveSt_q0 (s : HSt) (id n0 n1 : Nat) (h : s.find id = none) (c : Chan) (hn : nOf c n0 n1 = 0) :
+    (arriveSt s id n0 n1).q c = s.q c := by
+  obtain ⟨_, _, _, a0, a1, _⟩ := arriveSt_spec s id n0 n1 h
+  cases c
+  · show (arriveSt s id n0 n1).q0 = s.q0; rw [a0, if_pos (show n0 = 0 from hn)]
+  · show (arriveSt s id n0 n1).q1 = s.q1; rw [a1, if_pos (show n1 = 0 from hn)]
+
+theorem arriveSt_q1 (s : HSt) (id n0 n1 : Nat) (h : s.find id = none) (c : Chan) (hn : nOf c n0 n1 ≠ 0) :
+    (arriveSt s id n0 n1).q c = (s.q c).insert { dt := s.clock, id := id } := by
+  obtain ⟨_, _, _, a0, a1, _⟩ := arriveSt_spec s id n0 n1 h
+  cases c
+  · show (arriveSt s id n0 n1).q0 = s.q0.insert _; rw [a0, if_neg (show ¬ n0 = 0 from hn)]
+  · show (arriveSt s id n0 n1).q1 = s.q1.insert _; rw [a1, if_neg (show ¬ n1 = 0 from hn)]
+
+theorem wf_arriveSt {s : HSt} (hwf : WF s) (id n0 n1 : Nat) : WF (arriveSt s id n0 n1) := by
+  cases hm : s.find id with
+  | some m => unfold arriveSt; simp only [hm]; exact hwf
+  | none =>
+    obtain ⟨am, _, _, _, _, ad⟩ := arriveSt_spec s id n0 n1 hm
+    have hni := find_none_notin hm
+    have hnq : ∀ c, id ∉ ids (s.q c) := by
+      intro c hin
+      obtain ⟨e, he, hei⟩ := List.mem_map.mp hin
+      obtain ⟨m2, hm2, _⟩ := hwf.hasFile c e he
+      rw [hei, hm] at hm2; cases hm2
+    have hfind_old : ∀ i m2, s.find i = some m2 → (arriveSt s id n0 n1).find i = some m2 := by
+      intro i m2 h
+      have := find_append_old s (arriveMsg s id n0 n1) i m2 h
+      unfold HSt.find at this ⊢; rw [am]; exact this
+    have hfind_new : (arriveSt s id n0 n1).find id = some (arriveMsg s id n0 n1) := by
+      have := find_append_new s (arriveMsg s id n0 n1) (by exact hm)
+      unfold HSt.find at this ⊢; rw [am]; exact this
+    refine ⟨?_, ?_, ?_, ?_, ?_⟩
+    · intro c
+      by_cases hn : nOf c n0 n1 = 0
+      · rw [arriveSt_q0 s id n0 n1 hm c hn]; exact hwf.heap c
+      · rw [arriveSt_q1 s id n0 n1 hm c hn]; exact (insert_spec _ _ (hwf.heap c)).1
+    · rw [ad]
+      by_cases hz : n0 = 0 ∧ n1 = 0
+      · rw [if_pos hz]; exact (insert_spec _ _ hwf.heapDone).1
+      · rw [if_neg hz]; exact hwf.heapDone
+    · rw [am]
+      simp only [List.map_append, List.map_cons, List.map_nil]
+      rw [List.nodup_append]
+      refine ⟨hwf.nodupMsgs, by simp, ?_⟩
+      intro a ha b hb
+      simp at hb
+      rw [hb]
+      intro h
+      have h' : a = id := h
+      subst h'; exact hni ha
+    · intro c
+      by_cases hn : nOf c n0 n1 = 0
+      · rw [arriveSt_q0 s id n0 n1 hm c hn]; exact hwf.nodupQ c
+      · rw [arriveSt_q1 s id n0 n1 hm c hn]
+        exact (ids_insert _ _ (hwf.heap c)).nodup_iff.mpr (List.nodup_cons.mpr ⟨hnq c, hwf.nodupQ c⟩)
+    · intro c e he
+      by_cases hn : nOf c n0 n1 = 0
+      · rw [arriveSt_q0 s id n0 n1 hm c hn] at he
+        obtain ⟨m2, hm2, hr2⟩ := hwf.hasFile c e he
+        exact ⟨m2, hfind_old _ _ hm2, hr2⟩
+      · rw [arriveSt_q1 s id n0 n1 hm c hn] at he
+        rcases (mem_insert _ _ _ (hwf.heap c)).mp he with h | h
+        · subst h
+          exact ⟨_, hfind_new, (arriveMsg_recs s id n0 n1 c).mpr hn⟩
+        · obtain ⟨m2, hm2, hr2⟩ := hwf.hasFile c e h
+          exact ⟨m2, hfind_old _ _ hm2, hr2⟩
+
+theorem tracked_arriveSt {s : HSt} (hwf : WF s) (ht : Tracked s) (id n0 n1 : Nat) : Tracked (arriveSt s id n0 n1) := by
+  cases hm : s.find id with
+  | some m => unfold arriveSt; simp only [hm]; exact ht
+  | none =>
+    obtain ⟨am, _, _, _, _, ad⟩ := arriveSt_spec s id n0 n1 hm
+    intro m hmem
+    rw [am] at hmem
+    have hsubq : ∀ c i, i ∈ ids (s.q c) → i ∈ ids ((arriveSt s id n0 n1).q c) := by
+      intro c i hi
+      by_cases hn : nOf c n0 n1 = 0
+      · rw [arriveSt_q0 s id n0 n1 hm c hn]; exact hi
+      · rw [arriveSt_q1 s id n0 n1 hm c hn]
+        exact (ids_insert _ _ (hwf.heap c)).mem_iff.mpr (List.mem_cons_of_mem _ hi)
+    rcases List.mem_append.mp hmem with hold | hnew
+    · obtain ⟨t1, t2⟩ := ht m hold
+      refine ⟨fun c hr => hsubq c _ (t1 c hr), fun h0 h1 => ?_⟩
+      have := t2 h0 h1
+      rw [ad]
+      by_cases hz : n0 = 0 ∧ n1 = 0
+      · rw [if_pos hz]; exact (ids_insert _ _ hwf.heapDone).mem_iff.mpr (List.mem_cons_of_mem _ this)
+      · rw [if_neg hz]; exact this
+    · simp only [List.mem_singleton] at hnew
+      subst hnew
+      refine ⟨fun c hr => ?_, fun h0 h1 => ?_⟩
+      · have hn := (arriveMsg_recs s id n0 n1 c).mp hr
+        rw [arriveSt_q1 s id n0 n1 hm c hn]
+        exact (ids_insert _ _ (hwf.heap c)).mem_iff.mpr (List.mem_cons_self ..)
+      · have z0 : n0 = 0 := by
+          by_cases h : n0 = 0
+          · exact h
+          · exfalso
+            have := (arriveMsg_recs s id n0 n1 .loc).mpr h
+            rw [show (arriveMsg s id n0 n1).recs .loc = (arriveMsg s id n0 n1).recs0 from rfl, h0] at this; cases this
+        have z1 : n1 = 0 := by
+          by_cases h : n1 = 0
+          · exact h
+          · exfalso
+            have := (arriveMsg_recs s id n0 n1 .rem).mpr h
+            rw [show (arriveMsg s id n0 n1).recs .rem = (arriveMsg s id n0 n1).recs1 from rfl, h1] at this; cases this
+        rw [ad, if_pos ⟨z0, z1⟩]
+        exact (ids_insert _ _ hwf.heapDone).mem_iff.mpr (List.mem_cons_self ..)
+
+theorem dueby_arriveSt {s : HSt} (hwf : WF s) {L : Int} (hd : DueBy L s) (id n0 n1 : Nat) : DueBy L (arriveSt s id n0 n1) := by
+  cases hm : s.find id with
+  | some m => unfold arriveSt; simp only [hm]; exact hd
+  | none =>
+    obtain ⟨am, ac, _, _, _, _⟩ := arriveSt_spec s id n0 n1 hm
+    intro c e he m2 hm2
+    rw [ac]
+    have hold : e ∈ (s.q c).toList → e.dt ≤ expiryBound L m2.birth c ∨ e.dt ≤ s.clock := by
+      intro he'
+      obtain ⟨m3, hm3, _⟩ := hwf.hasFile c e he'
+      have h4 : (arriveSt s id n0 n1).find e.id = some m3 := by
+        have := find_append_old s (arriveMsg s id n0 n1) e.id m3 hm3
+        unfold HSt.find at this ⊢; rw [am]; exact this
+      rw [h4] at hm2
+      have h5 : m3 = m2 := Option.some.inj hm2
+      subst h5
+      exact hd c e he' m3 hm3
+    by_cases hn : nOf c n0 n1 = 0
+    · rw [arriveSt_q0 s id n0 n1 hm c hn] at he; exact hold he
+    · rw [arriveSt_q1 s id n0 n1 hm c hn] at he
+      rcases (mem_insert _ _ _ (hwf.heap c)).mp he with h | h
+      · subst h; right; exact Int.le_refl _
+      · exact hold h
+
+/-- what `pqstart()` needs for `DueBy` -/
+theorem dueby_loadSt {s : HSt} (hn : (s.msgs.map (·.id)).Nodup) {L : Int} (hmt : MtimesDueBy L s) : DueBy L (loadSt s) := by
+  intro c e he m hm
+  obtain ⟨m0, hm0, hr0, hem⟩ := (mem_loadSt_q s c e).mp he
+  rw [loadSt_find] at hm
+  have hf := find_of_mem hn hm0
+  have : m = m0 := by
+    rw [hem] at hm
+    rw [show ({ dt := m0.mt c, id := m0.id } : Elt).id = m0.id from rfl, hf] at hm
+    exact (Option.some.inj hm).symm
+  subst this
+  rw [hem]
+  exact hmt m hm0 c hr0
+
 def bstepSt (s : HSt) : BStep → HSt
   | .tick d => { s with clock := s.clock + d }
   | .wake => s
   | .alrm => alrmSt s
   | .pass c l => passSt s c l .none
   | .restart => loadSt (finSt s)
+  | .arrive id n0 n1 => arriveSt s id n0 n1
 
 theorem run_bsteps (s : HSt) (x : BStep) : run s (x.steps s) = bstepSt s x := by cases x <;> rfl
 
@@ -1363,6 +1570,11 @@ theorem bstep_lifetime {s : HSt} (hwf : WF s) (x : BStep) : (bstepSt s x).lifeti
   | alrm => rfl
   | pass c l => exact (passSt_frame hwf c l .none).2.1
   | restart => exact (finSt_spec hwf).2.2.2.2.1
+  | arrive id n0 n1 =>
+    show (arriveSt s id n0 n1).lifetime = s.lifetime
+    cases hm : s.find id with
+    | some m => unfold arriveSt; simp only [hm]
+    | none => exact (arriveSt_spec s id n0 n1 hm).2.2.1
 
 theorem inv_bstep {s : HSt} {L : Int} (h : DInv L s)
     (hb : ∀ t b c, t ≤ b + s.lifetime → nextretry t b c ≤ expiryBound L b c)
@@ -1374,6 +1586,7 @@ theorem inv_bstep {s : HSt} {L : Int} (h : DInv L s)
   | alrm => exact ⟨wf_alrmSt hwf, tracked_alrmSt ht, dueby_alrm⟩
   | pass c l => exact ⟨wf_passSt hwf c l .none, tracked_passSt hwf ht c l .none, dueby_passSt hwf hd hb c l (hx c l rfl)⟩
   | restart => exact ⟨wf_loadSt (wf_finSt hwf).nodupMsgs, tracked_loadSt _, dueby_restart hwf ht hd⟩
+  | arrive id n0 n1 => exact ⟨wf_arriveSt hwf id n0 n1, tracked_arriveSt hwf ht id n0 n1, dueby_arriveSt hwf hd id n0 n1⟩
 
 theorem inv_runB {L : Int} : ∀ (l : List BStep) (s : HSt), DInv L s →
     (∀ t b c, t ≤ b + s.lifetime → nextretry t b c ≤ expiryBound L b c) → allKZD l →
